@@ -176,6 +176,18 @@ check("C18", "TLC: partition of the key numbers as ASSUMEs, union law / ordering
       "Trusted: TLC (SetToSortSeq from the CommunityModules). m = n = 0 is recorded, not judged (DESIGN 6.5). Package keys are compared as sets "
       "(their order is not specified).", "DESIGN.md 3.11, 5/C18")
 
+check("C20", "TLC: calendar / EU daylight-saving arithmetic of GermanTime.tla checked by ASSUMEs (known dates, one Stromtag and one Gastag limit per civil day, "
+      "23/24/25-hour days exactly on the switch days) + enumeration of instants whose verdicts are replayed in many UTC-offset notations",
+      "The spec computes German local time from integer arithmetic only (no time-zone library) and is sanity-checked by TLC against known switch dates and "
+      "the one-limit-per-day theorem over all 15,340 days. TLC enumerates instants (quick: 11 special days per year x 20 seconds of day; thorough: every "
+      "day 1996-2037 x 20 seconds) with their verdicts; each instant is written with 8 (thorough 32) UTC offsets incl. Z and evaluated by the real "
+      "evaluate_931..935 (and through format_constraint_evaluation for a sample): every notation must get the spec's verdict, unfulfilled results "
+      "carry a message. The no-exception clause is exercised with 56 boundary strings (year 1/9999 edges, invalid fields, odd offsets) and thousands "
+      "of mutated / random strings.",
+      "Trusted: TLC integer arithmetic; Python's timezone-free datetime for rendering. Exact verdicts only for the canonical notations (DESIGN 6.6). As "
+      "DESIGN 9.1 says, for this property the spec is an independent oracle plus generator for a pure function rather than a concurrency model.",
+      "DESIGN.md 3.12, 5/C20")
+
 NOT_BUILT = "check under construction in this session (specification module planned in DESIGN.md section 3); not claimed yet"
 
 
